@@ -3,19 +3,19 @@
 # Confirms a seeded change in its scratch worktree and stores it under /verif/seeded/<name>.
 set -u
 export GOFLAGS=-mod=mod GOPROXY=off GOSUMDB=off GOTOOLCHAIN=local
-ID=$1; WT=$2; PAT=$3; NAME=${4:-$ID}
+ID=$1; WT=$2; PAT=$3; NAME=${4:-$ID}; PKG=${5:-./test}
 cd $WT || exit 2
-demo=$(git status --short | grep '^?? test/' | awk '{print $2}' | head -1)
+demo=$(git status --short | grep '^??' | grep '_test.go$' | grep -v SEED | awk '{print $2}' | head -1)
 [ -z "$demo" ] && { echo "no demo file"; exit 2; }
 git diff --quiet && { echo "change not applied"; exit 2; }
 git diff -- server nats > /tmp/seed_$NAME.diff
 # (b) demo with change -> must fail
-go test -count=1 ./test -run "$PAT" > /tmp/seed_$NAME.with.log 2>&1; with=$?
+go test -count=1 $PKG -run "$PAT" > /tmp/seed_$NAME.with.log 2>&1; with=$?
 # (a) suite with change, demo skipped -> must pass
 go test -count=1 -skip "$PAT" $(go list ./... 2>/dev/null | grep -v /SEED) > /tmp/seed_$NAME.suite.log 2>&1; suite=$?
 # (c) demo without change -> must pass
 git apply -R /tmp/seed_$NAME.diff
-go test -count=1 ./test -run "$PAT" > /tmp/seed_$NAME.without.log 2>&1; without=$?
+go test -count=1 $PKG -run "$PAT" > /tmp/seed_$NAME.without.log 2>&1; without=$?
 git apply /tmp/seed_$NAME.diff
 echo "$NAME: demo-with-change exit=$with (want !=0)  suite-with-change exit=$suite (want 0)  demo-without exit=$without (want 0)"
 if [ $with -ne 0 ] && [ $suite -eq 0 ] && [ $without -eq 0 ]; then
@@ -23,7 +23,7 @@ if [ $with -ne 0 ] && [ $suite -eq 0 ] && [ $without -eq 0 ]; then
   cp /tmp/seed_$NAME.diff /verif/seeded/$NAME/patch.diff
   cp $demo /verif/seeded/$NAME/$(basename $demo).txt
   cp SEED/notes.md /verif/seeded/$NAME/notes.md 2>/dev/null
-  echo "$demo|$PAT" > /verif/seeded/$NAME/.demo
+  echo "$demo|$PAT|$PKG" > /verif/seeded/$NAME/.demo
   echo "  stored in /verif/seeded/$NAME"
 else
   echo "  NOT CONFIRMED"; tail -5 /tmp/seed_$NAME.suite.log
